@@ -17,7 +17,7 @@ import tempfile
 import vlib
 from vlib import hx
 
-SCRATCH_ROOT = os.environ.get("VERIF_SCRATCH", "/tmp/verif-scratch/%d" % os.getpid())
+SCRATCH_ROOT = os.environ.get("VERIF_SCRATCH", "/tmp/verif-scr/%d" % os.getpid())
 
 
 class Timeout(Exception):
@@ -105,7 +105,7 @@ SINGLE_RESOURCE = {"makedir", "openbin", "remove", "removedir", "settimes", "mov
 MODES = ["r", "rb", "r+", "w", "wb", "w+", "a", "ab", "a+", "x", "xb", "x+", "", "z", "rt", "br", "wt", "+r"]
 
 
-def op_request(op, closed, tree_enc):
+def op_request(op, closed, tree_enc, cmd="ref.step"):
     name = op[0]
     a = [name]
     for x in op[1:]:
@@ -115,7 +115,7 @@ def op_request(op, closed, tree_enc):
             a.append(hx(x))
         else:
             raise AssertionError(op)
-    return "ref.step %s %s %s" % ("1" if closed else "0", tree_enc, " ".join(a))
+    return "%s %s %s %s" % (cmd, "1" if closed else "0", tree_enc, " ".join(a))
 
 
 def exc_name(e):
@@ -144,7 +144,7 @@ def apply_op(f, op):
         if name == "isfile":
             return "bool:%d" % f.isfile(op[1])
         if name == "listdir":
-            return "names:" + vlib.hxlist(sorted(f.listdir(op[1])))
+            return "names:" + vlib.hxlist(f.listdir(op[1]))  # the filesystem's own order
         if name == "getsize":
             n = f.getsize(op[1])
             return "nat:%d" % (n if f.isfile(op[1]) else 0)
@@ -214,7 +214,14 @@ def apply_op(f, op):
         return ("err", exc_name(e), e)
 
 
-def parse_reply(line):
+def canon_val(v):
+    """order-insensitive form of a canonical value (listing order is unspecified in general)"""
+    if isinstance(v, str) and v.startswith("names:"):
+        return "names:" + vlib.hxlist(sorted(vlib.unhxlist(v[6:])))
+    return v
+
+
+def parse_reply(line, sort_names=True):
     """`<ok v|err E> | <tree'> | <closed'> | adm=.. | wf=..`"""
     parts = [p.strip() for p in line.split(" | ")]
     out = parts[0]
@@ -224,7 +231,7 @@ def parse_reply(line):
     wf = parts[4] == "wf=1"
     if out.startswith("ok "):
         v = out[3:]
-        if v.startswith("names:"):
+        if v.startswith("names:") and sort_names:
             v = "names:" + vlib.hxlist(sorted(vlib.unhxlist(v[6:])))
         return ("ok", v), tree, closed, adm, wf
     return ("err", out[4:]), tree, closed, adm, wf
@@ -480,9 +487,9 @@ def run_history(kind, rng, n_ops, hist_id, names=NAMES, gen=gen_op, prefix_ops=(
     return steps
 
 
-def model_replies(drv, steps, closed=False):
-    reqs = [op_request(s.op, closed, enc_tree(s.pre)) for s in steps]
-    return [parse_reply(r) for r in drv.batch(reqs)]
+def model_replies(drv, steps, closed=False, cmd="ref.step", sort_names=True):
+    reqs = [op_request(s.op, closed, enc_tree(s.pre), cmd) for s in steps]
+    return [parse_reply(r, sort_names) for r in drv.batch(reqs)]
 
 
 def op_json(op):
